@@ -563,6 +563,20 @@ func (a *Analyzer) checkFunctions(clause ast.Clause) error {
 			if err := a.checkExprArity(x.Right); err != nil {
 				return err
 			}
+		case ast.TemporalLiteral:
+			// The literal under a temporal annotation has arguments like any other.
+			var args []ast.BaseTerm
+			switch lit := x.Literal.(type) {
+			case ast.Atom:
+				args = lit.Args
+			case ast.NegAtom:
+				args = lit.Atom.Args
+			}
+			for _, arg := range args {
+				if err := a.checkExprArity(arg); err != nil {
+					return err
+				}
+			}
 		}
 	}
 
